@@ -38,6 +38,9 @@ Record authz := {
   az_method : string
 }.
 
+(* who calls the introspection endpoint: client credentials (Basic) or a bearer token *)
+Inductive caller := CallerClient (auth : option nat) | CallerBearer (tok : pres).
+
 Inductive op :=
 | OAuthorize (a : authz)
 | ORedeem (auth : option nat) (code : pres) (redirect : string) (verifier verifier_s256 : string) (smuggled : list string)
@@ -45,7 +48,11 @@ Inductive op :=
 | ORevoke (auth : option nat) (tok : pres) (h : hint)
 | OIntrospect (tok : pres) (h : hint) (scopes : list string)
 | OAdvance (ms : Z)
-| OSetClient (id : nat) (c : client).
+| OSetClient (id : nat) (c : client)
+| OPassword (auth : option nat) (creds_ok : bool) (scopes : list string) (aud : list aurl)
+            (granted : list string) (gaud : list aurl)
+| OClientCreds (auth : option nat) (scopes : list string) (aud : list aurl) (granted : list string) (gaud : list aurl)
+| OIntrospectEP (caller : caller) (tok : pres) (h : hint) (scopes : list string).
 
 (* ------------------------------------------------------------------ small helpers *)
 Definition scopes_ok (cfg : config) (cl : client) (scopes : list string) : bool :=
@@ -94,6 +101,10 @@ Definition grant_tokens (s : state) (stored : req) (with_rt : bool) : state * li
     (log_add (set_store s2 (create_access (st s2) ka stored))
        [{| i_kind := KAccess; i_key := ka; i_rid := r_id stored; i_endpoint_token := true |}],
      [KAccess]).
+
+(* a grant that starts at the token endpoint: a new request id, then the token sessions *)
+Definition fresh_grant (s : state) (mk : nat -> req) (w : bool) : state * list ckind :=
+  let (rid, s1) := fresh_rid s in grant_tokens s1 (mk rid) w.
 
 (* ------------------------------------------------------------------ PKCE (handler/pkce/handler.go) *)
 Definition pkce_no_pkce (cfg : config) (cl : client) : option string :=
@@ -331,6 +342,85 @@ Definition introspect (cfg : config) (s : state) (tok : pres) (h : hint) (scopes
     | _ => match a with Some p => Some p | None => r end
     end.
 
+(* ------------------------------------------------------------------ token endpoint: password, client_credentials *)
+Definition fresh_session (cfg : config) (s : state) (subject : string) (round_at : bool) (with_rt : bool) : sess :=
+  {| s_subject := subject; s_exp_code := None;
+     s_exp_at := Some (if round_at then round_s (now s + cf_life_at cfg) else (now s + cf_life_at cfg)%Z);
+     s_exp_rt := if with_rt && Z.leb 0 (cf_life_rt cfg) then Some (round_s (now s + cf_life_rt cfg)) else None |}.
+
+(* flow_resource_owner.go; the subject is whatever the user store answers (the reference store
+   answers a random UUID, written "uuid" in observations) *)
+Definition password_flow (cfg : config) (s : state) (auth : option nat) (creds_ok : bool)
+           (scopes : list string) (aud : list aurl) (granted : list string) (gaud : list aurl) : state * obs :=
+  match auth with
+  | None => fail s "invalid_client"
+  | Some c =>
+  match clients s c with
+  | None => fail s "invalid_client"
+  | Some cl =>
+      if negb (args_has (cl_grants cl) ["password"]) then fail s "unauthorized_client"
+      else if negb (scopes_ok cfg cl scopes) then fail s "invalid_scope"
+      else if negb (aud_ok cfg (cl_aud cl) aud) then fail s "invalid_request"
+      else if negb creds_ok then fail s "invalid_grant"
+      else
+        let se := fresh_session cfg s "uuid" true true in
+        let mk := fun rid => {| r_id := rid; r_client := c; r_cl := cl; r_rscopes := scopes; r_gscopes := granted;
+                         r_raud := aud; r_gaud := gaud; r_sess := se; r_redirect := "";
+                         r_challenge := ""; r_method := ""; r_at := now s |} in
+        let w := match cf_refresh_scopes cfg with [] => true | sc => args_has_one_of granted sc end in
+        let (s2, minted) := fresh_grant s mk w in
+        (s2, ok_obs minted (expires_in se cfg (now s)) granted)
+  end end.
+
+(* flow_client_credentials.go: the grant-type check sits in the populate phase *)
+Definition client_credentials_flow (cfg : config) (s : state) (auth : option nat)
+           (scopes : list string) (aud : list aurl) (granted : list string) (gaud : list aurl) : state * obs :=
+  match auth with
+  | None => fail s "invalid_client"
+  | Some c =>
+  match clients s c with
+  | None => fail s "invalid_client"
+  | Some cl =>
+      if negb (scopes_ok cfg cl scopes) then fail s "invalid_scope"
+      else if negb (aud_ok cfg (cl_aud cl) aud) then fail s "invalid_request"
+      else if cl_public cl then fail s "invalid_grant"
+      else if negb (args_has (cl_grants cl) ["client_credentials"]) then fail s "unauthorized_client"
+      else
+        let se := fresh_session cfg s "" false false in
+        let mk := fun rid => {| r_id := rid; r_client := c; r_cl := cl; r_rscopes := scopes; r_gscopes := granted;
+                         r_raud := aud; r_gaud := gaud; r_sess := se; r_redirect := "";
+                         r_challenge := ""; r_method := ""; r_at := now s |} in
+        let (s2, minted) := fresh_grant s mk false in
+        (s2, ok_obs minted (expires_in se cfg (now s)) granted)
+  end end.
+
+(* ------------------------------------------------------------------ introspection endpoint (introspection_request_handler.go) *)
+Definition pres_eqb (a b : pres) : bool :=
+  Bool.eqb (p_tampered a) (p_tampered b) &&
+  match p_ref a, p_ref b with
+  | CRef i, CRef j => Nat.eqb i j
+  | CUnknown, CUnknown => true
+  | _, _ => false
+  end.
+
+Definition caller_ok (cfg : config) (s : state) (cal : caller) (tok : pres) : bool :=
+  match cal with
+  | CallerClient auth => match auth with Some c => match clients s c with Some _ => true | None => false end | None => false end
+  | CallerBearer ct =>
+      if pres_eqb ct tok then false
+      else match introspect cfg s ct HAccess [] with
+           | Some p => ckind_eqb (pl_use p) KAccess
+           | None => false
+           end
+  end.
+
+Definition introspect_ep (cfg : config) (s : state) (cal : caller) (tok : pres) (h : hint) (scopes : list string) : obs :=
+  if negb (caller_ok cfg s cal tok) then err_obs "request_unauthorized"
+  else match introspect cfg s tok h scopes with
+       | Some _ => ok_obs [] 0%Z []
+       | None => err_obs "token_inactive"
+       end.
+
 (* ------------------------------------------------------------------ one step; histories *)
 Definition step (cfg : config) (s : state) (o : op) : state * obs :=
   match o with
@@ -345,6 +435,9 @@ Definition step (cfg : config) (s : state) (o : op) : state * obs :=
           end)
   | OAdvance ms => (set_now s (now s + ms)%Z, ok_obs [] 0%Z [])
   | OSetClient id c => (set_clients s (upd (clients s) id (Some c)), ok_obs [] 0%Z [])
+  | OPassword auth ok sc au g ga => password_flow cfg s auth ok sc au g ga
+  | OClientCreds auth sc au g ga => client_credentials_flow cfg s auth sc au g ga
+  | OIntrospectEP cal tok h scopes => (s, introspect_ep cfg s cal tok h scopes)
   end.
 
 Definition run (cfg : config) (s : state) (h : list op) : state :=
